@@ -151,4 +151,33 @@ example : CReach cfg0 p0 1 0 snM2.1 snM2.2 := creach_of_wfAll _ _ _ CReach.init 
 example : (get snM1.1.ctxs ⟨8, 0⟩).map (fun x => (x.batch, x.bstate)) = some (1, .running) ∧ snM1.2 ⟨8, 0⟩ = 0 := by decide
 example : (get snM2.1.ctxs ⟨8, 0⟩).map (fun x => (x.batch, x.bstate)) = some (1, .completed) ∧ snM2.2 ⟨8, 0⟩ = 1 := by decide
 
+/-! ### C19, the restarted chain: from `s2` (a pending request, earnings, a running context) the restart succeeds,
+the context comes back paused with an empty escrow, and the chain goes on: the consumer starts the context again and
+the next block issues a fresh batch (two paid requests held by the escrow) -/
+def sR : State := (restart s2 1 0).getD s2
+def opsR : List Op := [.start ⟨7, 0⟩ "u", .endblock 5]
+theorem sR_is_restart : restart s2 1 0 = some sR := by
+  have h : (restart s2 1 0).isSome = true := by decide
+  unfold sR
+  cases hr : restart s2 1 0 with
+  | none => rw [hr] at h; cases h
+  | some x => rfl
+example : balOf sR.bank.bal "e" = 0 ∧ balOf sR.bank.bal "d" = 200 ∧ sR.reqs.length = 0 ∧ sR.earned.length = 0 ∧
+    (get sR.ctxs ⟨7, 0⟩).map (fun x => (x.state, x.bstate, x.batch)) = some (.paused, .completed, 1) := by decide
+theorem sR2_reachableFrom : ∀ (ops : List Op) (s : State), ReachableFrom sR s → wfAll s ops = true →
+    ReachableFrom sR (runOps s ops) := by
+  intro ops
+  induction ops with
+  | nil => intro s hs _; exact hs
+  | cons op t ih =>
+    intro s hs hw
+    simp only [wfAll, Bool.and_eq_true, decide_eq_true_eq] at hw
+    exact ih _ (ReachableFrom.step op hs hw.1) hw.2
+example : ReachableFrom sR (runOps sR opsR) := sR2_reachableFrom opsR sR ReachableFrom.init (by decide)
+example : (runOps sR opsR).activeI.length = 2 ∧ balOf (runOps sR opsR).bank.bal "e" = 10 ∧
+    (get (runOps sR opsR).ctxs ⟨7, 0⟩).map (fun x => (x.state, x.bstate, x.batch)) = some (.running, .running, 2) := by decide
+example : Inv (runOps sR opsR) :=
+  (C19.restarted_chain_stays_backed cfg0_ok s2_reachable 1 0 sR_is_restart
+    (sR2_reachableFrom opsR sR ReachableFrom.init (by decide))).1
+
 end SM.NonVacuity
